@@ -87,6 +87,23 @@ def build_db(ft, lemmas, goal_variant):
                 mmgen.apply('proof-rule-prop-1', fr, {'ph0': ph0, 'ph1': x}, [])]),
             mmgen.apply('proof-rule-prop-1', fr, {'ph0': ph0, 'ph1': ph2}, [])])
         st.append(('p', 'l7', (TH, IMP(ph0, ph0)), mmref.encode_compressed(t, mand(['ph0']), 'all')))
+    if 'L10' in lemmas:
+        # the dummy variable ph3 is kept apart from ph0 by an OUTERMOST $d, and a proof step needs exactly that:
+        # ax-dd may only be used on disjoint arguments
+        if not any(x[0] == 'v' and 'ph3' in x[1] for x in st):
+            st.append(('v', ('ph3',)))
+            st.append(('f', 'ph3-is-pattern', '#Pattern', 'ph3'))
+        st.append(('d', ('ph0', 'ph3')))
+        st.append(('block', [('d', ('ph0', 'ph1')), ('a', 'ax-dd', (TH, IMP(ph0, IMP(ph1, ph0))))]))
+        _, fr10 = frames_of(st)
+        d3 = V('ph3')
+        x = IMP(d3, ph0)
+        t = mmgen.apply('proof-rule-mp', fr10, {'ph0': IMP(ph0, x), 'ph1': IMP(ph0, ph0)}, [
+            mmgen.apply('proof-rule-mp', fr10, {'ph0': IMP(ph0, IMP(x, ph0)), 'ph1': IMP(IMP(ph0, x), IMP(ph0, ph0))}, [
+                mmgen.apply('proof-rule-prop-2', fr10, {'ph0': ph0, 'ph1': x, 'ph2': ph0}, []),
+                mmgen.apply('proof-rule-prop-1', fr10, {'ph0': ph0, 'ph1': x}, [])]),
+            mmgen.apply('ax-dd', fr10, {'ph0': ph0, 'ph1': d3}, [])])
+        st.append(('p', 'l10', (TH, IMP(ph0, ph0)), mmref.encode_compressed(t, mand(['ph0']), 'all')))
     _, fr = frames_of(st)
     # goal variants
     if goal_variant == 'refl' and 'L1' in lemmas:
@@ -119,6 +136,9 @@ def build_db(ft, lemmas, goal_variant):
     elif goal_variant == 'chain' and 'L8' in lemmas and 'L2' in lemmas:
         target = A('\\f', A('\\f', A('\\f', c0)))
         t = mmgen.apply('l8', fr, {'ph0': A('\\f', c0)}, [('ax-b', [])])
+    elif goal_variant == 'dummydv' and 'L10' in lemmas:
+        target = IMP(c0, c0)
+        t = mmgen.apply('l10', fr, {'ph0': c0}, [])
     elif goal_variant == 'axiom':
         target = IMP(c0, A('c1'))
         t = ('ax-a', [])
@@ -134,9 +154,9 @@ def specs(thorough):
     orders = [(0, 1, 2), (2, 0, 1), (1, 2, 0)] if thorough else [(0, 1, 2), (1, 2, 0)]
     for o in orders:
         for notation in (False, True):
-            for k in range(0, 9 if thorough else 4):
-                for lem in itertools.combinations(('L1', 'L2', 'L3', 'L4', 'L5', 'L6', 'L7', 'L8'), k):
-                    for gv in ('refl', 'rule', 'both', 'dv', 'nested', 'notation', 'gdv', 'dvextra', 'dummy', 'chain', 'axiom'):
+            for k in range(0, 10 if thorough else 4):
+                for lem in itertools.combinations(('L1', 'L2', 'L3', 'L4', 'L5', 'L6', 'L7', 'L8', 'L10'), k):
+                    for gv in ('refl', 'rule', 'both', 'dv', 'nested', 'notation', 'gdv', 'dvextra', 'dummy', 'dummydv', 'chain', 'axiom'):
                         out.append((o, notation, lem, gv))
     return out
 
@@ -229,7 +249,7 @@ def slices(db, desc, orig_model):
 
 
 def _kind(label):
-    return {'l1': 'plain', 'l2': 'essential', 'l3': 'disjoint', 'l4': 'nested', 'l5': 'global_dv', 'l6': 'dv_extra_var', 'l7': 'dummy_var', 'l8': 'essential_uses_essential'}.get(label, 'goal')
+    return {'l1': 'plain', 'l2': 'essential', 'l3': 'disjoint', 'l4': 'nested', 'l5': 'global_dv', 'l6': 'dv_extra_var', 'l7': 'dummy_var', 'l8': 'essential_uses_essential', 'l10': 'dummy_var_global_dv'}.get(label, 'goal')
 
 
 def db_chunk(sps):
@@ -274,7 +294,22 @@ def history_texts():
     def swap(text, a, b):
         toks = text.split(' ')
         return ' '.join(x.replace(a, '\0').replace(b, a).replace('\0', b) for x in toks)
-    return [t0, swap(t0, 'c0', 'ph0'), t2, swap(t2, 'c1', 'ph1')]
+    out = [t0, swap(t0, 'c0', 'ph0'), t2, swap(t2, 'c1', 'ph1')]
+    for pair in (('ph0', 'ph1'), ('ph0', 'ph2'), ('ph1', 'ph2')):
+        st = mmgen.prelude(ft)
+        st.append(('d', pair))
+        _, fr = frames_of(st)
+        p0, p1, p2 = V('ph0'), V('ph1'), V('ph2')
+        tgt = IMP(IMP(p0, IMP(p1, p2)), IMP(IMP(p0, p1), IMP(p0, p2)))
+        st.append(('p', 'l9', (TH, tgt), mmref.encode_compressed(mmgen.apply('proof-rule-prop-2', fr, {'ph0': p0, 'ph1': p1, 'ph2': p2}, []),
+                                                               ['ph0-is-pattern', 'ph1-is-pattern', 'ph2-is-pattern'], 'none')))
+        _, fr = frames_of(st)
+        c0, c1 = A('c0'), A('c1')
+        g = IMP(IMP(c0, IMP(c1, c0)), IMP(IMP(c0, c1), IMP(c0, c0)))
+        st.append(('p', 'goal', (TH, g), mmref.encode_compressed(mmgen.apply('l9', fr, {'ph0': c0, 'ph1': c1, 'ph2': c0}, []), [], 'none')))
+        mmref.verify_db(st)
+        out.append(mmref.write_db(st))
+    return out
 
 
 def history_worker(seq):
